@@ -27,10 +27,10 @@ pub proof fn lemma_hits_step(sm: Seq<DltMessage>, f: &FilterKindContainer<Vec<Fi
 //@   sig pub fn search_page(all_msgs: &[DltMessage], stream: &StreamContext, filters: FilterKindContainer<Vec<Filter>>, start_idx: usize, max_results: usize) -> (r: (Vec<DltMessageIndexType>, Option<usize>))
 //@   tail `(search_idxs, next_search_idx)`
 //@   sub R2 `adlt::dlt::DltMessage` => `DltMessage`
+//@   sub R3 `std::cmp::min(` => `vx_min_usize(` ?
 //@   spec
 //@|    requires
 //@|        stream_ok(all_msgs@, stream),
-//@|        max_results <= 0x1000_0000, // Vec::with_capacity(max_results)
 //@|    ensures
 //@|        // the search is finished: every position from start_idx to the end of the stream was examined
 //@|        r.1 is None ==> ({ let n = stream_msgs(all_msgs@, stream).len() as int; as_positions(r.0@) == hits(all_msgs@, stream, &filters, if start_idx <= n { start_idx as int } else { n }, n) }), // O:search.finished
